@@ -13,6 +13,11 @@
 //                                                  array through the real writer, 2 leading spaces, 3 BOM + leading spaces; the padding is
 //                                                  sized so that the reader's 16382-byte chunk edge falls before byte (pos mod (len+1)) of the body
 //              sweep fmt mode padkind step         the same for EVERY position of the body (step 1) -- the sliding-prefix sweep
+//              target kind len fmt mode     Json::write/Xdl::write to a special TARGET PATH, then read: kind 0 a file name of exactly
+//                                                  len bytes (1..255 = NAME_MAX) in a short directory; 1 a symbolic link to an existing
+//                                                  file; 2 a symbolic link to a file that does not exist yet; 3 one of two hard links;
+//                                                  4 an existing longer file that is overwritten.  write() returns true and reading
+//                                                  through the same path AND (links) through the other path gives the written tree
 //   hostile kind pos  (optional, very first op): before EVERY decode/read of the case's round trips, the static Json::decode /
 //                     Xdl::decode is called on the same thread with a malformed text derived from the text about to be
 //                     decoded (kind 0 a prefix, 1 a prefix cut inside a \uXXXX escape, 2 a lone high-surrogate escape, 3 cut
@@ -702,6 +707,7 @@ static std::string& tmpdir()
 		mkdir(d->c_str(), 0755);
 		atexit([]() {
 			unlink((tmpdir() + "/doc").c_str());
+			rmdir((tmpdir() + "/t").c_str());
 			rmdir(tmpdir().c_str());
 		});
 	}
@@ -796,6 +802,81 @@ static void file_roundtrip(const MV& m, const Var& v, int fmt, int mode, int pad
 	}
 }
 
+// write to a special target path, read back through every path that names the file
+static void target_roundtrip(const MV& m, const Var& v, int kind, long len, int fmt, int mode)
+{
+	std::string dir = tmpdir() + "/t";
+	mkdir(dir.c_str(), 0755);
+	int emode = mode == 4 ? (fmt == 0 ? 1 : 3) : mode;
+	bool simple = (emode & 2) != 0;
+	static const char* KIND[] = {"file name of given length", "symlink to an existing file", "symlink to a missing file", "one of two hard links", "overwrite of a longer file"};
+	std::string path, other, tag = std::string(fmt ? "Xdl::write/read " : "Json::write/read ") + MODE_NAME[mode] + ", target: " + KIND[kind];
+	std::string old = "[\"old content, longer than most of the documents that replace it ........................................\", 1, 2, 3, 4, 5, 6, 7, 8, 9, 10]\n";
+	std::vector<std::string> cleanup;
+	switch (kind) {
+	case 0:
+		if (len < 1)
+			len = 1;
+		if (len > 255)
+			len = 255;
+		path = dir + "/" + std::string((size_t)len, 'n');
+		tag += " (" + std::to_string(len) + " bytes)";
+		break;
+	case 1:
+		other = dir + "/real";
+		path = dir + "/link";
+		raw_write(other, old);
+		VF_CHECK(symlink("real", path.c_str()) == 0, "harness: symlink failed");
+		break;
+	case 2:
+		other = dir + "/real";
+		path = dir + "/link";
+		unlink(other.c_str());
+		VF_CHECK(symlink("real", path.c_str()) == 0, "harness: symlink failed");
+		break;
+	case 3:
+		other = dir + "/first";
+		path = dir + "/second";
+		raw_write(other, old);
+		VF_CHECK(link(other.c_str(), path.c_str()) == 0, "harness: link failed");
+		break;
+	default:
+		path = dir + "/doc";
+		raw_write(path, old);
+	}
+	cleanup.push_back(path);
+	if (!other.empty())
+		cleanup.push_back(other);
+	cleanup.push_back(path + ".tmp");
+	struct Rm {
+		std::vector<std::string>& f;
+		~Rm()
+		{
+			for (auto& x : f)
+				unlink(x.c_str());
+		}
+	} rm{cleanup};
+	String file(path.c_str());
+	bool ok = mode == 4 ? (fmt == 0 ? Json::write(v, file) : Xdl::write(v, file)) : (fmt == 0 ? Json::write(v, file, Json::Mode(mode)) : Xdl::write(v, file, mode));
+	VF_CHECK(ok, tag, ": write returned false");
+	for (int which = 0; which < (other.empty() ? 1 : 2); which++) {
+		const std::string& rp = which == 0 ? path : other;
+		hostile_decode("[\"pad\\u0007\"]");
+		Var back = fmt == 0 ? Json::read(String(rp.c_str())) : Xdl::read(String(rp.c_str()));
+		const char* via = which == 0 ? "the path written to" : "the other path of the same file";
+		VF_CHECK(back.ok(), tag, ": read through ", via, " gives an invalid Var");
+		try {
+			check_var(m, back, simple, "$");
+		}
+		catch (vf::Failure& f) {
+			std::string now;
+			f.msg += " [" + tag + ", read through " + via + "]";
+			throw;
+		}
+	}
+	vf::stats().cls(std::string("target.") + (kind == 0 ? (len >= 250 ? "name_250..255_bytes" : "name_1..249_bytes") : KIND[kind]));
+}
+
 void vf_run_case(const std::string& part, const vf::Case& c)
 {
 	(void)part;
@@ -808,13 +889,21 @@ void vf_run_case(const std::string& part, const vf::Case& c)
 		g_hostile.pos = c.ops[0].i(1) < 0 ? -(c.ops[0].i(1) + 1) : c.ops[0].i(1);
 		pos = 1;
 	}
-	if (pos < c.ops.size() && (c.ops[pos].name == "file" || c.ops[pos].name == "sweep")) {
+	if (pos < c.ops.size() && (c.ops[pos].name == "file" || c.ops[pos].name == "sweep" || c.ops[pos].name == "target")) {
 		head = &c.ops[pos];
 		pos++;
 	}
 	MV m = read_tree(c.ops, pos, false, 0);
 	Traits t;
 	scan(m, t, 1);
+	if (head && head->name == "target") {
+		int fmt = (int)(head->i(2) & 1);
+		if (fmt == 1 && !t.idkeys)
+			fmt = 0;
+		Var v = build(m);
+		target_roundtrip(m, v, (int)(((head->i(0) % 5) + 5) % 5), head->i(1), fmt, (int)(((head->i(3) % 5) + 5) % 5));
+		return;
+	}
 	if (!head) {
 		mem_roundtrip(m, t);
 		vf::stats().cls("hostile.decodes_before_a_round_trip_decode", (uint64_t)g_hostile.calls);
@@ -1087,7 +1176,7 @@ void classify_tree(const vf::Case& c, const char* part)
 	bool hostile = !c.ops.empty() && c.ops[0].name == "hostile";
 	if (hostile)
 		pos = 1;
-	if (pos < c.ops.size() && (c.ops[pos].name == "file" || c.ops[pos].name == "sweep"))
+	if (pos < c.ops.size() && (c.ops[pos].name == "file" || c.ops[pos].name == "sweep" || c.ops[pos].name == "target"))
 		pos++;
 	bool filecase = pos > (hostile ? 1u : 0u);
 	MV m = read_tree(c.ops, pos, false, 0);
@@ -1262,6 +1351,39 @@ void vf_search(const vf::Args& a)
 			if (samples++ < 1)
 				vf::stats().sample("sweep: " + vf::serialize(c));
 		});
+	}();
+	// (6) special target paths: EVERY file-name length 1..255 (enumerated, split between the workers), and generated trees to
+	//     symlinks (existing / missing target), one of two hard links, an existing longer file
+	[&]() {
+		uint64_t n = 0;
+		for (int len = 1; len <= 255; len++) {
+			if (len % a.workers != a.worker)
+				continue;
+			MV m;
+			m.k = MV::Arr;
+			MV e;
+			e.k = MV::Int;
+			e.i = len;
+			m.kids.push_back(e);
+			e.k = MV::Str;
+			e.s = "x\x07";
+			m.kids.push_back(e);
+			vf::Op head("target", {0, len, len & 1, (len >> 1) % 5});
+			vf::Case c = tree_case(m, &head, false);
+			if (!vf::runner().run("target", c))
+				return;
+			n++;
+		}
+		vf::stats().nt_counted(n);
+		vf::stats().part("target.every_file_name_length_1..255", n, true);
+		auto g = gen::exec([]() {
+			MV m = pick_root(30, 30);
+			vf::Op head("target");
+			head.a = {*gen::weightedElement<int>({{2, 0}, {3, 1}, {3, 2}, {3, 3}, {2, 4}}), *gen::weightedOneOf<int>({{3, vf::irange<int>(248, 255)}, {1, vf::irange<int>(1, 255)}}),
+			          *vf::irange<int>(0, 1), *vf::irange<int>(0, 4)};
+			return tree_case(m, &head);
+		});
+		vf::check_cases("target", a.n(250, 2500), 50, g, [&](const vf::Case& c) { classify_tree(c, "target"); });
 	}();
 	// (5) documents of 1..4 bytes through files, all of them: every scalar text that short
 	[&]() {
